@@ -20,12 +20,7 @@ func c11MergeConfigs(confs []config.Config) config.Config
 //go:linkname c11NormalizeList honnef.co/go/tools/config.normalizeList
 func c11NormalizeList(list []string) []string
 
-func c11Choose(n int) int {
-	k := nondetInt()
-	vassume(k >= 0)
-	vassume(k < n)
-	return vconcrete(k)
-}
+func c11Choose(n int) int { return vchoose(n) }
 
 var c11Analyzers = []string{"S1000", "S1001", "SA1000", "SA1001", "SA2000", "ST1000", "QF1001"}
 
